@@ -886,7 +886,7 @@ impl Log {
 
 	pub fn end_read(&self, cleared: Cleared, record_id: u64) {
 		if record_id >= self.next_record_id.load(Ordering::Relaxed) {
-			self.next_record_id.store(record_id + 1, Ordering::Relaxed);
+			self.next_record_id.store(record_id.saturating_add(1), Ordering::Relaxed);
 		}
 		let mut overlays = self.overlays.write();
 		for (table, index) in cleared.index.into_iter() {
